@@ -18,6 +18,9 @@ pub struct Cfg {
     pub cap: Disc,
     /// client level: Some((residentKey 0 absent/1 discouraged/2 preferred/3 required, requireResidentKey, credProps 0 absent/1 false/2 true, selection present))
     pub client: Option<(u8, bool, u8, bool)>,
+    /// also request the PRF extension on an authenticator that supports it (credProps must not be affected)
+    #[serde(default)]
+    pub prf: bool,
     /// CTAP level rk
     pub ctap_rk: Option<bool>,
 }
@@ -36,7 +39,7 @@ pub fn check(ctx: &mut Ctx, c: &Cfg) -> Result<(), String> {
     ctx.nontrivial(c);
     let store = RefStore::new(c.cap);
     let uv = ScriptedUv::new(UvScript::verified());
-    let auth = cer::build_authenticator(store.clone(), uv, &AuthCfg::default());
+    let auth = cer::build_authenticator(store.clone(), uv, &AuthCfg { counter: true, hmac: if c.prf { crate::cer::HmacCfg::WithoutUvMc } else { crate::cer::HmacCfg::None }, ..Default::default() });
     let supports_rk = c.cap != Disc::OnlyNonDiscoverable;
     let site = &SITES[0];
     if let Some((rkreq, require, cred_props, with_sel)) = c.client {
@@ -54,10 +57,11 @@ pub fn check(ctx: &mut Ctx, c: &Cfg) -> Result<(), String> {
                 cer::uv_req(1),
             )
         });
+        let prf_in = c.prf.then(|| passkey_types::webauthn::AuthenticationExtensionsPrfInputs { eval: Some(passkey_types::webauthn::AuthenticationExtensionsPrfValues { first: b"c11".to_vec().into(), second: None }), eval_by_credential: None });
         let ext = match cred_props {
-            0 => None,
-            1 => Some(AuthenticationExtensionsClientInputs { cred_props: Some(false), ..Default::default() }),
-            _ => Some(AuthenticationExtensionsClientInputs { cred_props: Some(true), ..Default::default() }),
+            0 => prf_in.map(|p| AuthenticationExtensionsClientInputs { prf: Some(p), ..Default::default() }),
+            1 => Some(AuthenticationExtensionsClientInputs { cred_props: Some(false), prf: prf_in, ..Default::default() }),
+            _ => Some(AuthenticationExtensionsClientInputs { cred_props: Some(true), prf: prf_in, ..Default::default() }),
         };
         let req = cer::creation_options(site.rp, b"c11 challenge", b"c11-user-handle", "user", &[-7], None, sel, ext);
         let res = block_on(client.register(site.origin(), req, DefaultClientData));
@@ -105,14 +109,20 @@ pub fn check(ctx: &mut Ctx, c: &Cfg) -> Result<(), String> {
                         return Err("unrequested credProps output contradicts the stored credential".into());
                     }
                 }
-                // now an assertion
-                let req = cer::request_options(site.rp, b"c11 challenge 2", Some(vec![cer::descriptor(&cred.raw_id)]), cer::uv_req(1), None);
-                let a = block_on(client.authenticate(site.origin(), req, DefaultClientData)).map_err(|e| format!("assertion with the new credential failed: {e:?}"))?;
-                if a.response.user_handle.is_some() != discoverable {
-                    return Err(format!("assertion returned a user handle = {}, the credential stores one = {discoverable}", a.response.user_handle.is_some()));
-                }
-                if discoverable && a.response.user_handle.map(|b| b.to_vec()) != Some(b"c11-user-handle".to_vec()) {
-                    return Err("assertion returned a different user handle than stored".into());
+                // now assertions (several: the stored record is rewritten by the counter update in between)
+                for round in 1..=3 {
+                    let req = cer::request_options(site.rp, b"c11 challenge 2", Some(vec![cer::descriptor(&cred.raw_id)]), cer::uv_req(1), None);
+                    let a = block_on(client.authenticate(site.origin(), req, DefaultClientData)).map_err(|e| format!("assertion #{round} with the new credential failed: {e:?}"))?;
+                    let stored_now = store.creds().first().map(|c| c.user_handle.is_some()).unwrap_or(false);
+                    if stored_now != discoverable {
+                        return Err(format!("after assertion #{round} the stored credential's user handle present = {stored_now}, it was {discoverable} after registration"));
+                    }
+                    if a.response.user_handle.is_some() != discoverable {
+                        return Err(format!("assertion #{round} returned a user handle = {}, the credential stores one = {discoverable}", a.response.user_handle.is_some()));
+                    }
+                    if discoverable && a.response.user_handle.map(|b| b.to_vec()) != Some(b"c11-user-handle".to_vec()) {
+                        return Err(format!("assertion #{round} returned a different user handle than stored"));
+                    }
                 }
             }
         }
@@ -152,18 +162,20 @@ pub fn check(ctx: &mut Ctx, c: &Cfg) -> Result<(), String> {
                     return Err(format!("stored user handle present = {discoverable}, capability {:?} with rk={rk} means {}", c.cap, c.cap.discoverable(rk)));
                 }
                 let id = r.auth_data.attested_credential_data.as_ref().ok_or("no attested data")?.credential_id().to_vec();
-                let a = block_on(auth.get_assertion(get_assertion::Request {
-                    rp_id: "example.com".into(),
-                    client_data_hash: vec![9u8; 32].into(),
-                    allow_list: Some(vec![cer::descriptor(&id)]),
-                    extensions: None,
-                    options: get_assertion::Options { rk: false, up: true, uv: true },
-                    pin_auth: None,
-                    pin_protocol: None,
-                }))
-                .map_err(|e| format!("get_assertion failed: {e:?}"))?;
-                if a.user.is_some() != discoverable {
-                    return Err(format!("get_assertion returned user = {}, the credential stores a handle = {discoverable}", a.user.is_some()));
+                for round in 1..=3 {
+                    let a = block_on(auth.get_assertion(get_assertion::Request {
+                        rp_id: "example.com".into(),
+                        client_data_hash: vec![9u8; 32].into(),
+                        allow_list: Some(vec![cer::descriptor(&id)]),
+                        extensions: None,
+                        options: get_assertion::Options { rk: false, up: true, uv: true },
+                        pin_auth: None,
+                        pin_protocol: None,
+                    }))
+                    .map_err(|e| format!("get_assertion #{round} failed: {e:?}"))?;
+                    if a.user.is_some() != discoverable {
+                        return Err(format!("get_assertion #{round} returned user = {}, the credential stores a handle = {discoverable}", a.user.is_some()));
+                    }
                 }
             }
         }
@@ -177,23 +189,26 @@ pub fn all_configs() -> Vec<Cfg> {
         for rkreq in 0..4u8 {
             for require in [false, true] {
                 for cp in 0..3u8 {
-                    v.push(Cfg { cap, client: Some((rkreq, require, cp, true)), ctap_rk: None });
+                    for prf in [false, true] {
+                        v.push(Cfg { cap, client: Some((rkreq, require, cp, true)), ctap_rk: None, prf });
+                    }
                 }
             }
         }
         // no authenticatorSelection at all
         for cp in 0..3u8 {
-            v.push(Cfg { cap, client: Some((0, false, cp, false)), ctap_rk: None });
+            v.push(Cfg { cap, client: Some((0, false, cp, false)), ctap_rk: None, prf: false });
+            v.push(Cfg { cap, client: Some((0, false, cp, false)), ctap_rk: None, prf: true });
         }
         for rk in [false, true] {
-            v.push(Cfg { cap, client: None, ctap_rk: Some(rk) });
+            v.push(Cfg { cap, client: None, ctap_rk: Some(rk), prf: false });
         }
     }
     v
 }
 
 pub fn run(ctx: &mut Ctx) {
-    ctx.rule = "complete product: store capability (3) x residentKey (absent, discouraged, preferred, required) x requireResidentKey (2) x credProps request (absent, false, true) through Client::register followed by authenticate, plus authenticatorSelection absent (3x3), plus capability x CTAP rk (2) through make_credential / get_assertion. Every configuration is distinct and non-trivial.".into();
+    ctx.rule = "complete product: store capability (3) x residentKey (absent, discouraged, preferred, required) x requireResidentKey (2) x credProps request (absent, false, true) x PRF requested on a PRF-capable authenticator (2) through Client::register followed by three authentications (counters on, so the record is rewritten in between), plus authenticatorSelection absent (3x3), plus capability x CTAP rk (2) through make_credential / get_assertion. Every configuration is distinct and non-trivial.".into();
     ctx.exhaustive = Some(true);
     ctx.assumptions = vec!["the capability is set through the reference store's get_info; user validation always consents".into()];
     let all = all_configs();
